@@ -44,6 +44,8 @@ def on_transition(self, source, target, event):
     self.seen.append((str(event), source.id, target.id))
 def on_exit_state(self, state):
     self.seen.append(("exit", state.id))
+def on_enter_state(self, state):
+    self.seen.append(("enter", state.id))
 '''
 
 COMMON = '''
@@ -137,16 +139,16 @@ quit = Event(d.from_.any(unless="g2"), name="Quit")
 a = State(initial=True); b = State(); c = State(); d = State(final=True)
 @(a.to(b, cond="g1") | a.to(c) | b.to(c))
 def go(self):
-    pass
+    self.seen.append(("fn", "go"))
 @(b.to(a) | c.to(a, unless="g2"))
 def back(self):
-    pass
+    self.seen.append(("fn", "back"))
 loop = b.to.itself()
 hop = c.to(b, unless="g2")
 skip = hop
 @(b.to(d, cond="g1") | a.to(d) | b.to(d) | c.to(d))
 def halt(self):
-    pass
+    self.seen.append(("fn", "halt"))
 quit = d.from_.any(unless="g2")
 ''',
     "or-association": '''
@@ -392,6 +394,18 @@ def run(ctx, params):
         raise Mismatch(f"rendering-behaves-differently:{tag}", f"from {cur} on {ev}: abstract machine says {exp_kind}/{exp_state}, {style} gave {o1[0]}/{s1} (reference rendering {o0[0]}/{s0})")
     if (o0[0], s0) != (exp_kind, exp_state):
         raise Mismatch("rendering-behaves-differently:reference", f"from {cur} on {ev}: abstract machine says {exp_kind}/{exp_state}, reference gave {o0[0]}/{s0}")
+    if style == "decorator":
+        # the decorated function is the event's `on` action: it runs once, after the source's exit and before the target's enter
+        fns = [k for k, x in enumerate(t1) if x[0] == "fn"]
+        want_fn = 1 if (exp_kind == "ret" and ev in ("go", "back", "halt")) else 0
+        if len(fns) != want_fn or any(t1[k] != ("fn", ev) for k in fns):
+            raise Mismatch(f"decorated-event-function-miscalled:{tag}", f"from {cur} on {ev}: trace {t1}")
+        for k in fns:
+            exits = [j for j, x in enumerate(t1) if x[0] == "exit"]
+            enters = [j for j, x in enumerate(t1) if x[0] == "enter"]
+            if any(j > k for j in exits) or any(j < k for j in enters):
+                raise Mismatch(f"decorated-event-function-out-of-order:{tag}", f"from {cur} on {ev}: the function given with @transitions is the event's `on` action (after exit, before enter); trace {t1}")
+        t1 = [x for x in t1 if x[0] != "fn"]
     if t0 != t1:
         raise Mismatch(f"callback-trace-differs:{tag}", f"from {cur} on {ev}: reference ran {t0}, {style} ran {t1} (source/target/exit state seen by the callbacks)")
     if o0 != o1 and not (style in ("decorator", "mixed-styles")):
